@@ -72,3 +72,24 @@ Fixpoint dial_starts (s : Z) (b : bo) (dws : list (Z * Z)) : list Z :=
 (* the configuration Upstream.connect builds: defaults 100ms / 15s when the fields are zero, retry forever *)
 Definition connect_backoff (cfg_min cfg_max : Z) : bo :=
   bo_new 0 (if cfg_min =? 0 then 100000000 else cfg_min) (if cfg_max =? 0 then 15000000000 else cfg_max).
+
+(* --- which failed dials are retried (pkg/websocket/conn.go Dial): no HTTP response at all (connection refused, reset,
+   closed before the handshake answer) is retryable; a response is retryable iff its status is one of 408, 429, 500, 502,
+   503, 504; every other status (401, 403, 404, a redirect ...) ends the loop with an error *)
+Inductive dial_result := DRConnected | DRNoResponse | DRStatus (st : Z).
+Definition retryable_status (st : Z) : bool := existsb (Z.eqb st) [408; 429; 500; 502; 503; 504].
+Definition dial_fatal (r : dial_result) : bool :=
+  match r with DRStatus st => negb (retryable_status st) | _ => false end.
+
+(* the loop over a script of dial results (context never cancelled): how many dials are made and how it ends.
+   true = connected, false = gave up with an error; None = the script ended while still retrying *)
+Fixpoint connect_script (rs : list dial_result) : nat * option bool :=
+  match rs with
+  | [] => (O, None)
+  | r :: rest =>
+      match r with
+      | DRConnected => (1%nat, Some true)
+      | _ => if dial_fatal r then (1%nat, Some false)
+             else let '(n, o) := connect_script rest in (S n, o)
+      end
+  end.
